@@ -4,6 +4,8 @@
 // between the predicate evaluation inside the wait and the first statement after the call).
 #include <tlx/thread_pool.hpp>
 
+#include <memory>
+
 #include "sched/vexplore.hpp"
 
 using vshim::thread;
@@ -286,6 +288,45 @@ static void sc_h(int W, int NJ) {
     vs_observe(vh::fmt("h ran=%d", J.total()).c_str());
 }
 
+// i) jobs whose closures OWN something: every job captures a shared token, and the token's destructor - which runs when the
+// last closure (or main's copy) is destroyed - enqueues a continuation (fork-join style).  The worker destroys a job's closure
+// right after running it, outside the mutex and before it counts the job as done, so the continuation is enqueued while the
+// pool still counts the finishing job as busy: loop_until_empty() must not return before the continuation ran.
+struct Token {
+    tlx::ThreadPool* pool;
+    Jobs* J;
+    int id;
+    ~Token() {
+        Jobs* j = J;
+        int i = id;
+        pool->enqueue([j, i]() { j->run(i); });
+    }
+};
+static void sc_i(int W, int NJ) {
+    Reset rst;
+    Jobs J;
+    {
+        tlx::ThreadPool pool(W);
+        Track trk(&pool, &J);
+        {
+            ::std::shared_ptr<Token> tok(new Token{&pool, &J, NJ});
+            for (int i = 0; i < NJ; ++i) {
+                vs_set_tag(1 + i);
+                pool.enqueue([&J, i, tok]() { J.run(i); });
+            }
+            vs_set_tag(40);
+        }  // main's copy goes away; the last owner (a finished job's closure or main) runs ~Token
+        vs_set_tag(50);
+        pool.loop_until_empty();
+        check_quiescent(pool, "i");
+        check_all_once(J, NJ + 1, "i");  // NJ jobs and the continuation
+        REQUIRE(pool.done_.vs_peek() == (size_t)(NJ + 1), "done-count", "done()=%zu after %d jobs and one continuation", pool.done_.vs_peek(), NJ);
+    }
+    g_pool = nullptr;
+    check_all_once(J, NJ + 1, "i/after-destruction");
+    vs_observe(vh::fmt("i ran=%d", J.total()).c_str());
+}
+
 // g) reuse: two rounds
 static void sc_g(int W, int NJ) {
     Reset rst;
@@ -357,6 +398,10 @@ int main(int argc, char** argv) {
         add(vh::fmt("h:w%d:j0", W), "external-terminate", [W] { sc_h(W, 0); }, W == 1 ? 'P' : 'D', 2, 3);
         if (W <= 2) add(vh::fmt("h:w%d:j1", W), "external-terminate", [W] { sc_h(W, 1); }, W == 1 ? 'P' : 'D', 2, 3);
         if (W == 1) add(vh::fmt("g:w%d:j2", W), "reuse", [W] { sc_g(W, 2); }, 'P', 2, 3);
+        if (W <= 2) {
+            add(vh::fmt("i:w%d:j1", W), "owning-closures", [W] { sc_i(W, 1); }, 'P', W == 1 ? 3 : 1, W == 1 ? 4 : 2);
+            add(vh::fmt("i:w%d:j2", W), "owning-closures", [W] { sc_i(W, 2); }, W == 1 ? 'P' : 'D', W == 1 ? 2 : 2, 3);
+        }
     }
     // explicit-state (unbounded) exploration of the smaller scenarios: every interleaving at the granularity of
     // the scheduling points, pruned at abstract states seen before
